@@ -178,7 +178,7 @@ def main_for(chk: Check, pid: str, models: bool = True):
                     "X.leader": "best agent seen by a step is a best member of its starting population",
                     "X.slotwise": f"greedy-per-agent optimizers ({len(gen.GREEDY_EACH)}): no slot gets worse", "X.greywolf": "alpha/beta/gamma = three best",
                     "X.pso": "pbest[i] = best visited by particle i", "X.bee": "trial counters below the scouting limit"},
-        "steps_judged": sum(max(0, len(r["snaps"]) - 1) for r in records),
+        "steps_judged": sum(max(0, r.get("n_snaps", 0) - 1) for r in records),
         "failed": {cl: dict(c) for cl, c in ext.items()},
     }
     for cl, c in ext.items():
@@ -191,10 +191,10 @@ def main_for(chk: Check, pid: str, models: bool = True):
     chk.extra["runs_by_encoding"] = dict(collections.Counter(r["encoding"] for r in records))
     chk.extra["optimizers"] = len({r["opt"] for r in records})
     chk.extra["objective_calls"] = sum(r.get("x_ncalls", 0) for r in records)
-    chk.extra["agents_judged"] = sum(len(g) for r in records for g in r["evo"])
+    chk.extra["agents_judged"] = sum(r.get("n_agents", 0) for r in records)
     chk.extra["skipped_configs"] = len(v["skipped"])
     chk.extra["corpus_cached"] = v.get("cached", False)
-    ok = [r for r in records if r["completed"] and r["id"] not in flagged_ids]
+    ok = [r for r in records if r["completed"] and r["id"] not in flagged_ids and not r.get("slim")]
     if ok:
         r = ok[len(ok) // 2]
         chk.sample({k: r[k] for k in ("id", "opt", "mode", "N", "dir", "D", "mc", "steps", "gens", "crash")}
